@@ -13,7 +13,8 @@ Record case := {
   o_raw : list (bool * N * Z * N);         (* uftrace dump: exit?, function, record depth, time *)
   o_chrome : list (bool * N * N);          (* uftrace dump --chrome: exit?, function, time *)
   o_report : list N;                       (* uftrace report: Calls column per function number, then "<0>" *)
-  o_graph : list (N * N * N)               (* uftrace graph: pre-order (depth, function, calls) *)
+  o_graph : list (N * N * N);              (* uftrace graph: pre-order (depth, function, calls) *)
+  o_flame : list (N * N * N)               (* uftrace dump --flame-graph: the same tree, one line per call path *)
 }.
 
 Definition recs (k : case) : list rec := flats 0 (k_forest k).
@@ -35,6 +36,9 @@ Definition agree_report (k : case) : bool :=
 Definition agree_graph (k : case) : bool :=
   list_eqb tri_eqb (graph_of (run_std (k_cfg k) (recs k))) (o_graph k).
 
+Definition agree_flame (k : case) : bool :=
+  list_eqb tri_eqb (graph_of (run_chrome (k_cfg k) (recs k))) (o_flame k).
+
 (* ---------------------------------------------------------------- the property, on implementation outputs *)
 Definition nd_n (a : bool * N * Z) : bool * N := let '(x, f, _) := a in (x, f).
 Definition nt_n (a : bool * N * N) : bool * N := let '(x, f, _) := a in (x, f).
@@ -49,7 +53,7 @@ Definition raw_free (c : cfg) (l : list N) : bool :=
 Definition raw_class (k : case) : bool := raw_free (k_cfg k) (fns k).
 
 (* "consistently across these commands" *)
-Definition ok_agree (k : case) : bool :=
+Definition ok_agree_gen (with_raw : bool) (k : case) : bool :=
   let c := k_cfg k in
   let pf := plt_free c (fns k) in
   let shown := map nt_n (o_chrome k) in
@@ -59,7 +63,9 @@ Definition ok_agree (k : case) : bool :=
   && (negb pf || list_eqb n_eqb (if no_range c then rp else rp ++ map (fun f => (true, f)) (open_stack rp [])) shown)
   && (negb (no_range c) || list_eqb N.eqb (report_of (k_nfun k) (map n_ev shown) []) (o_report k))
   && list_eqb tri_eqb (graph_of (map n_ev shown)) (o_graph k)
-  && (negb (raw_class k && no_range c) || list_eqb nt_eqb (map rt_nt (o_raw k)) (o_chrome k)).
+  && list_eqb tri_eqb (graph_of (map n_ev shown)) (o_flame k)
+  && (negb (with_raw && raw_class k && no_range c) || list_eqb nt_eqb (map rt_nt (o_raw k)) (o_chrome k)).
+Definition ok_agree (k : case) : bool := ok_agree_gen true k.
 
 (* "selects the calls defined by the documented semantics" for the option class of the theorems *)
 Definition spec_class (k : case) : bool := no_switch (k_cfg k) (fns k) && no_range (k_cfg k).
@@ -79,9 +85,11 @@ Definition trig_empty (q : rtrig) : bool :=
   | _, _, _ => false
   end.
 Fixpoint height (n : call) : nat := match n with Call _ _ _ ks => S (fold_right Nat.max 0%nat (map height ks)) end.
+Definition loc_free (c : cfg) (l : list N) : bool :=
+  negb (lmode_in c) && forallb (fun f => match loc_of c f with None => true | Some _ => false end) l.
 Definition range_only (k : case) : bool :=
   let c := k_cfg k in
-  forallb (fun f => trig_empty (trig_of c f)) (fns k) && (threshold c =? 0)%N && negb (caller_filter c)
+  loc_free c (fns k) && forallb (fun f => trig_empty (trig_of c f)) (fns k) && (threshold c =? 0)%N && negb (caller_filter c)
   && plt_free c (fns k) && forallb (fun n => Z.of_nat (height n) <=? gdepth c) (k_forest k).
 Definition in_window (c : cfg) (t : N) : bool :=
   ((range_start c =? 0) || (range_start c <=? t))%N && ((range_stop c =? 0) || (t <=? range_stop c))%N.
@@ -133,22 +141,43 @@ Fixpoint mono_thr (c : cfg) (thr : N) (n : call) : bool :=
       let th := match q_time (trig_of c f) with Some t => t | None => thr end in
       (thr <=? th)%N && forallb (mono_thr c th) ks
   end.
-Definition rr_class_of (c : cfg) (f : list call) : bool :=
+Definition rr_base (c : cfg) (f : list call) : bool :=
   let l := flat_map fns_of f in
   forallb (fun n => negb (dur n =? 0)%N && forallb (fun t => negb (dur n =? t)%N) (thresholds c l))
           (flat_map calls_of f)
-  && forallb (fun k => match q_depth (trig_of c k) with None => true | Some _ => false end
-                       && negb (q_trace_on (trig_of c k)) && negb (q_trace_off (trig_of c k))) l
-  (* -C, `trace` and time= act on calls that -F/-N/-D hide at replay time but not at record time:
-     only compared when no call is hidden by -F/-N/-D *)
+  (* -C, `trace` and time= act on calls that -F/-N/-D/depth= hide at replay time but not at record time:
+     only compared when no call is hidden *)
   && (negb (caller_filter c || existsb (fun k => q_trace (trig_of c k)) l
             || existsb (fun k => match q_time (trig_of c k) with Some _ => true | None => false end) l)
-      || (forallb (fun k => match q_filter (trig_of c k) with None => true | Some _ => false end) l
+      || (forallb (fun k => match q_filter (trig_of c k) with None => true | Some _ => false end
+                            && match q_depth (trig_of c k) with None => true | Some _ => false end) l
           && forallb (fun n => Z.of_nat (height n) <=? gdepth c) f))
   && (1 <=? gdepth c).
+Definition no_sw (c : cfg) (l : list N) : bool :=
+  forallb (fun k => negb (q_trace_on (trig_of c k)) && negb (q_trace_off (trig_of c k))) l.
+(* depth= triggers agree at both times since the fix c9e77e5 (a rejected -pg entry whose trigger changed the filter
+   state keeps a not-recorded shadow stack entry), except below an -F function (filter-below-depth-trigger,
+   known finding): compared when there is no -F at all *)
+Definition depth_ok (c : cfg) (l : list N) : bool :=
+  forallb (fun k => match q_depth (trig_of c k) with None => true | Some _ => false end) l
+  || forallb (fun k => match q_filter (trig_of c k) with Some true => false | _ => true end) l.
+Definition rr_class_of (c : cfg) (f : list call) : bool :=
+  let l := flat_map fns_of f in rr_base c f && no_sw c l && depth_ok c l.
 Definition rr_class (k : rcase) : bool := rr_class_of (rr_cfg k) (rr_forest k).
+(* trace_on / trace_off at both times: the same events in the same order (the recording made with the switch
+   has the calls at their recorded depth, the replay of the full recording at their original depth) *)
+Definition rr_class_sw (k : rcase) : bool :=
+  let c := rr_cfg k in let l := flat_map fns_of (rr_forest k) in
+  rr_base c (rr_forest k) && negb (no_sw c l)
+  && forallb (fun x => match q_depth (trig_of c x) with None => true | Some _ => false end) l
+  (* a trigger on a function that -F/-N hide fires at record time only (same family as
+     time-trigger-outside-filter): only compared without -F/-N; calls entered while the switch is off do not
+     use up -D at replay time: only without a -D hit *)
+  && forallb (fun x => match q_filter (trig_of c x) with None => true | Some _ => false end) l
+  && forallb (fun n => Z.of_nat (height n) <=? gdepth c) (rr_forest k).
 Definition ok_rr (k : rcase) : bool :=
-  negb (rr_class k) || list_eqb nd_eqb (rr_rec_replay k) (rr_opt_replay k).
+  (negb (rr_class k) || list_eqb nd_eqb (rr_rec_replay k) (rr_opt_replay k))
+  && (negb (rr_class_sw k) || list_eqb n_eqb (map nd_n (rr_rec_replay k)) (map nd_n (rr_opt_replay k))).
 
 (* ---------------------------------------------------------------- several tasks *)
 Record mcase := {
@@ -225,6 +254,35 @@ Definition ok_e2e (k : ecase) : bool :=
 Definition fheightZ (f : list call) : Z := Z.of_nat (fold_right Nat.max 0%nat (map height f)).
 Definition ok_switch (k : case) : bool :=
   let c := k_cfg k in
-  negb (no_range c && sw_class c (fns k) (fheightZ (k_forest k)))
+  negb (no_range c && loc_free c (fns k) && sw_class c (fns k) (fheightZ (k_forest k)))
   || (list_eqb n_eqb (select_sw c (k_forest k)) (map nt_n (o_chrome k))
       && (negb (plt_free c (fns k)) || list_eqb n_eqb (select_sw c (k_forest k)) (map nd_n (o_replay k)))).
+
+(* ---------------------------------------------------------------- -Z SIZE / -T f@size=N (analysis time only) *)
+(* The fstack model has no symbol sizes; the size filter is tied at the level of the documented semantics:
+   the calls shown by the commands must be select of the forest with the small functions spliced out (select_z),
+   and the commands must agree with each other.  The raw dump is left out: it reads the data files without the
+   look-ahead list, where the size filter lives (same root as the known finding about -t/-C/time=). *)
+Record zcase := {
+  z_case : case;                  (* options other than the size filter, forest, outputs *)
+  z_sizes : list (N * N);         (* symbol sizes *)
+  z_zs : N;                       (* -Z SIZE, 0 = not given *)
+  z_ztr : list (N * N)            (* -T f@size=N *)
+}.
+Definition z_szof (k : zcase) : N -> N := assoc 128%N (z_sizes k).
+Definition z_ztrf (k : zcase) : N -> option N := assoc None (map (fun p => (fst p, Some (snd p))) (z_ztr k)).
+Definition z_select (k : zcase) : list vev :=
+  select_z (k_cfg (z_case k)) (z_szof k) (z_ztrf k) (z_zs k) (k_forest (z_case k)).
+Definition ok_size (k : zcase) : bool :=
+  let kk := z_case k in
+  let c := k_cfg kk in
+  negb (spec_class kk)
+  || (let sel := z_select k in
+      list_eqb nt_eqb (map ob_nt sel) (o_chrome kk)
+      && (negb (plt_free c (fns kk)) || list_eqb nd_eqb (map ob_nd sel) (o_replay kk))
+      && list_eqb N.eqb (report_of (k_nfun kk) sel []) (o_report kk)
+      && list_eqb tri_eqb (graph_of sel) (o_graph kk)).
+Definition ok_size_agree (k : zcase) : bool := ok_agree_gen false (z_case k).
+(* the size filter hides something in this case *)
+Definition z_hides (k : zcase) : bool :=
+  negb (Nat.eqb (length (z_select k)) (length (select (k_cfg (z_case k)) (k_forest (z_case k))))).
